@@ -42,7 +42,28 @@ MUTATIONS = {
                             'visitMal de-duplicates by removing from the list it iterates'),
     'reaches-inherits-swapped': ('semantic', 'ret["overrides"] = ctx.INHERITS() is None', 'ret["overrides"] = ctx.INHERITS() is not None',
                                  'visitReaches inverts the override flag'),
+    # --- the methods tied in the second round: visitMal, visitAssociation(s), _post_process_multitudes
+    'mal-dedup-dropped': ('semantic', '                if item not in unique:\n                    unique.append(item)',
+                          '                unique.append(item)', 'visitMal no longer de-duplicates (dropped guard)'),
+    'mal-include-not-merged': ('semantic', '                        if isinstance(v, MutableSequence) and k in included_file:\n                            langspec[k].extend(included_file[k])\n',
+                               '', 'visitMal compiles the included file but does not merge its lists'),
+    'mal-defines-overwritten': ('semantic', '                    langspec[key].update(value)', '                    langspec[key] = value',
+                                'visitMal overwrites the defines instead of updating them'),
+    'mal-assets-to-categories': ('semantic', '                    langspec["assets"].extend(assets)', '                    langspec["categories"].extend(assets)',
+                                 'visitMal appends the assets to the wrong list (swapped arguments)'),
+    'assoc-postprocess-skipped': ('semantic', '        self._post_process_multitudes(association)\n        return association',
+                                  '        return association', 'visitAssociation skips the multiplicity post-processing'),
+    'pp-star-min-one': ('semantic', '                    association[key][subkey] = 0', '                    association[key][subkey] = 1',
+                        "_post_process_multitudes: '*' as lower bound becomes 1"),
+    'pp-max-default-dropped': ('semantic', '            if subkey == "max" and association[key][subkey] is None:\n                association[key][subkey] = association[key]["min"]\n',
+                               '', '_post_process_multitudes: a missing upper bound is no longer the lower bound'),
+    # --- methods that are translated and executed but NOT yet tied (visitAsset, visitStep, visitCategory): the second tie
+    # cannot see these; the correspondence (driver op `visit` against the real compiler) does
+    'asset-abstract-inverted': ('untied', 'asset["isAbstract"] = ctx.ABSTRACT() is not None', 'asset["isAbstract"] = ctx.ABSTRACT() is None',
+                                'visitAsset inverts the abstract flag'),
     # behaviour-preserving
+    'mal-continue-dropped': ('harmless', '                    langspec["assets"].extend(assets)\n                    continue\n',
+                             '                    langspec["assets"].extend(assets)\n', 'visitMal: the `continue` after the categories branch dropped (the other branches cannot match)'),
     'rename-local': ('harmless', None, None, 'visitParts: local `lhs` renamed to `left`'),
     'logging': ('harmless', '    def visitParts(self, ctx):\n', '    def visitParts(self, ctx):\n        logger.debug("visiting parts")\n', 'extra logging in visitParts'),
     'reorder-independent': ('harmless', '        ret = {}\n\n        lhs = self.visit(ctx.part()[0])\n', '        lhs = self.visit(ctx.part()[0])\n\n        ret = {}\n',
@@ -78,6 +99,7 @@ def main(names):
             common.REPO = real
         kind, what = MUTATIONS[name][0], MUTATIONS[name][3]
         ok = (r['status'] in ('broken', 'untranslatable')) if kind == 'semantic' else (r['status'] in ('identical', 'reproved'))
+        if kind == 'untied': ok = r['status'] in ('reproved', 'broken', 'untranslatable')
         rows.append((name, kind, r['status'], 'ok' if ok else 'UNEXPECTED', r.get('wall_s'), what, (r.get('detail') or '')[:160].replace('\n', ' ')))
         print(f'{name:28s} {kind:9s} -> {r["status"]:15s} {"ok" if ok else "UNEXPECTED":10s} {r.get("wall_s")}s  | {rows[-1][-1]}', flush=True)
     return 0 if all(r[3] == 'ok' for r in rows) else 1
